@@ -34,6 +34,7 @@ type In struct {
 	Gone    int      // index+1 of a referenced file that does not exist at the source (0 = all present)
 	Sums    []string `json:",omitempty"` // names listed ONLY in Checksums-Sha256 / Checksums-Sha1 (not in Files)
 	NoFiles bool     `json:",omitempty"` // the control file has no Files field at all
+	Link    int      `json:",omitempty"` // index+1 of a referenced file that is a symbolic link (to a regular file next to it) at the source
 	Then    string   `json:",omitempty"` // a second operation on the same handle after the first succeeded: remove | move | copy
 	Event   string   // none | fault | shortwrite | crash
 	At      int      // operation index of the event
@@ -51,7 +52,15 @@ func (in In) ctlName() string {
 var auditSizes []int64 // file sizes from the alphabet audit, given to the .asc / part files
 
 // content of a referenced file; the .orig tarball is larger than two copy buffers, so its copy takes several writes
+// nestedDsc is a referenced file that is itself a well-formed .dsc - whose own Files field names a file OUTSIDE the
+// upload directory (the sentinel one level up): whatever the library does with the files a nested control file lists,
+// it must stay inside the two directories.
+const nestedDsc = ctlBase + "n.dsc"
+
 func content(name string) string {
+	if name == nestedDsc {
+		return "Format: 3.0 (quilt)\nSource: hello\nBinary: hello\nArchitecture: any\nVersion: 1.0-1n\nMaintainer: A <a@b>\nFiles:\n 00000000000000000000000000000001 11 ../sentinel\n 00000000000000000000000000000002 9 ../../sentinel\n"
+	}
 	n := 3000
 	if strings.Contains(name, ".orig.tar.gz") && !strings.HasSuffix(name, ".asc") {
 		n = 70000
@@ -175,6 +184,15 @@ func execute(in In) (*result, error) {
 		}
 		p := resolve(src, n)
 		os.MkdirAll(filepath.Dir(p), 0o755)
+		if in.Link == i+1 {
+			// the listed name is a symbolic link to a regular file in the same directory (relative target)
+			real := "real-" + filepath.Base(p)
+			os.WriteFile(filepath.Join(filepath.Dir(p), real), []byte(content(n)), 0o644)
+			if err := os.Symlink(real, p); err != nil {
+				return nil, err
+			}
+			continue
+		}
 		os.WriteFile(p, []byte(content(n)), 0o644)
 	}
 	for _, n := range in.Sums {
@@ -236,6 +254,9 @@ func execute(in In) (*result, error) {
 			switch in.Event {
 			case "fault":
 				return &os.PathError{Op: op.Kind, Path: op.Path, Err: syscall.EIO}
+			case "exdev":
+				// the destination is on another file system: rename(2) answers EXDEV
+				return &os.LinkError{Op: "rename", Old: op.Path, New: op.Path2, Err: syscall.EXDEV}
 			case "shortwrite":
 				if op.Kind == "write" {
 					return verifhook.ShortWrite{N: op.N / 2}
@@ -670,6 +691,16 @@ func Run(r *mc.Run) {
 			bases = append(bases, In{Kind: "changes", Op: op, Names: names, Dest: "emptydir", Event: "none"})
 		}
 	}
+	for _, op := range []string{"copy", "move", "remove"} {
+		bases = append(bases, In{Kind: "changes", Op: op, Names: []string{"hello_1.0.orig.tar.gz", nestedDsc}, Dest: "emptydir", Event: "none"},
+			In{Kind: "changes", Op: op, Names: []string{nestedDsc, "hello_1.0.orig.tar.gz", dscName}, Dest: "emptydir", Event: "none"})
+	}
+	// a referenced file that is a symbolic link at the source (Copy reads through it: the destination gets the content)
+	for _, kind := range []string{"dsc", "changes"} {
+		for l := 1; l <= 2; l++ {
+			bases = append(bases, In{Kind: kind, Op: "copy", Names: plain[2], Dest: "emptydir", Event: "none", Link: l})
+		}
+	}
 	counts := []int{13, 17, 18, 22}
 	if !r.Quick() {
 		counts = []int{12, 13, 16, 17, 18, 19, 20, 21, 22, 24, 33}
@@ -750,6 +781,11 @@ func Run(r *mc.Run) {
 			for _, ev := range []string{"fault", "crash"} {
 				in := base
 				in.Event, in.At = ev, k
+				run(in)
+			}
+			if res.ops[k].Kind == "rename" {
+				in := base
+				in.Event, in.At = "exdev", k
 				run(in)
 			}
 			if res.ops[k].Kind == "write" && len(base.Names) <= 8 {
